@@ -137,6 +137,9 @@ func (e *Engine) intrinsic(s *State, f *Frame, call *ssa.Call, fn *ssa.Function,
 			}
 		}
 	}
+	if e.bigIntrinsic(s, call, name, args) {
+		return true
+	}
 	switch name {
 	case "context.WithValue":
 		vt := e.Prog.ImportedPackage("context").Type("valueCtx").Type()
